@@ -412,6 +412,15 @@ def proof_stage(rep, prop_id, theorems, allowed_axioms=(), extra_targets=()):
                 failed.append({"kind": "unexpected-axioms", "axioms": notallowed})
             rep.cov["discharged"] = len(names) if not notallowed else 0
             rep.assumptions.append("Print Assumptions: " + ("Closed under the global context" if not axs else ", ".join(axs)))
+            if rep.tier == "thorough":
+                # independent re-check of the compiled files of this property and everything they depend on
+                rc, out = sh("coqchk -o -silent -Q . LoraV LoraV.Props.%s" % prop_id, cwd=COQ, timeout=1500)
+                m = re.search(r"\* Axioms:\s*(.*?)\n\s*\n", out, re.S)
+                ax = m.group(1).strip() if m else "?"
+                rep.cov["coqchk"] = {"exit": rc, "axioms": ax}
+                rep.assumptions.append("coqchk -o: exit %d, axioms: %s" % (rc, ax))
+                if rc != 0 or ax != "<none>":
+                    failed.append({"kind": "coqchk-failed", "exit": rc, "axioms": ax, "log": out[-1200:]})
     rep._proof_failures = failed
     return not failed
 
